@@ -10,7 +10,8 @@ Property theorems only (model: `Model/Google.lean`; helper lemmas: `Lemmas/Googl
   model (their only exception, the `ValueError` of `urlsplit`, is caught by the code and is the
   `none ↦ false` case of the model): they are total by construction, and the correspondence
   checks on every run that the real functions raise nothing either.
-* `parse_google_drive_url` indexes `path[0] … path[3]`, `path[-1]`: `parse_google_drive_url_total`.
+* `parse_google_drive_url` indexes `path[0] … path[3]`, `path[-1]`: `parse_google_drive_url_total`;
+  truncated paths give `None`: `truncated_path_none`, `truncated_url_none`, `pub_without_e_none`.
 * `record_valid`: drive type in `DRIVE_TYPES`, id a non-empty path segment.
 * round trip: `reparse_url` (full, both record types: `reparse_url_public_link`,
   `reparse_url_file` — the file id is stripped by the parser since d47b8e8).
@@ -60,7 +61,8 @@ theorem extract_id_from_google_drive_url_total (url : Str) (e : Err) :
   · rename_i e' h; exact absurd h (parse_google_drive_url_total url e')
   all_goals simp
 
-/-- `extract_id_from_google_drive_url` is the id of a parsed *file* and nothing else -/
+/-- `extract_id_from_google_drive_url` is the id of a parsed *file* and nothing else (an unfolding
+of the definition, kept as a helper; the totality claim rests on the two theorems above) -/
 theorem extract_id_spec (url id : Str) :
     extract_id_from_google_drive_url url = .ok (some id) ↔
       ∃ ty, parse_google_drive_url url = .ok (some (.file ty id)) := by
@@ -75,8 +77,52 @@ theorem extract_id_spec (url id : Str) :
   · rintro ⟨ty, hp⟩
     rw [hp]
 
+/-! ## truncated paths parse to `None` -/
+
+/-- **a truncated drive path gives `None`**: fewer than three segments (`document`, `document/d`,
+`document/d/` — whatever the segments are) -/
+theorem truncated_path_none (path : List Str) (h : path.length < 3) : parsePath path = .ok none := by
+  unfold parsePath
+  rw [if_pos h]
+
+/-- the same through the whole function: every url whose path has fewer than three segments
+(`docs.google.com/document/d`, `docs.google.com/spreadsheets/`, `docs.google.com`) -/
+theorem truncated_url_none (url : Str) (r : SplitResult) (hs : safe_urlsplit url = some r)
+    (h : (pathsplit r.path).length < 3) : parse_google_drive_url url = .ok none := by
+  unfold parse_google_drive_url
+  rw [hs]
+  simp only []
+  split
+  · rfl
+  · exact truncated_path_none _ h
+
+/-- **a published-link path without its `e` gives `None`**: more than three segments ending with
+`pub` whose third segment is not `e` (`document/d/x/pub`) -/
+theorem pub_without_e_none (path : List Str) (hl : path.length > 3)
+    (hlast : path.getLast? = some "pub".toList) (h2 : path[2]? ≠ some ['e']) :
+    parsePath path = .ok none := by
+  match path, hl, hlast, h2 with
+  | a :: b :: c :: d :: rest, _, hlast, h2 =>
+    have hc : c ≠ ['e'] := by intro e; exact h2 (by simp [e])
+    have hp : isPub (a :: b :: c :: d :: rest) = .ok true := by
+      unfold isPub lastOf
+      rw [if_pos (by simp), hlast]
+      simp
+    unfold parsePath
+    rw [if_neg (by simp)]
+    simp only [idx, List.getElem?_cons_zero, List.getElem?_cons_succ]
+    split
+    · rfl
+    · split
+      · rfl
+      · rw [hp]
+        simp only [pubBranch, idx, List.getElem?_cons_zero, List.getElem?_cons_succ]
+        rw [if_pos hc]
+
 example : parse_google_drive_url "docs.google.com/document".toList = .ok none := by decide +kernel
 example : parse_google_drive_url "docs.google.com/document/d/".toList = .ok none := by decide +kernel
+example : parse_google_drive_url "docs.google.com/document/d".toList = .ok none := by decide +kernel
+example : parse_google_drive_url "docs.google.com/document/d/x/pub".toList = .ok none := by decide +kernel
 example : parse_google_drive_url "http://[x".toList = .ok none := by decide +kernel
 example :
     extract_id_from_google_drive_url "https://docs.google.com/spreadsheets/d/1Bxi_MVs/edit#gid=0".toList =
